@@ -40,7 +40,7 @@ FLOORS = {
 }
 TIMEOUT_S = {"quick": 1500, "thorough": 5400}
 N_CASES = {"quick": 72, "thorough": 700}
-FAMILY_CYCLE = ["mixed", "probe", "discrete", "builtin", "probe", "discrete"]
+FAMILY_CYCLE = ["mixed", "probe", "discrete", "builtin", "bare", "bare-discrete"]
 
 
 def plan(tier, seed):
@@ -130,7 +130,7 @@ def run_case(case, ctx):
                 ctx.sample({"program": spec.show(prog), "args": vals, "constrained": d0["constrained"],
                             "weight": gfi.fnum(res[1]), "choices": R.to_numpy(res[0].get_choices())})
         # ------------------------------------------------ exact unbiasedness
-        if case["family"] == "discrete" and spec.all_discrete(prog) and kind in ("single", "random", "all", "none{}"):
+        if case["family"] in ("discrete", "bare-discrete") and spec.all_discrete(prog) and kind in ("single", "random", "all", "none{}"):
             r = ctx.call(_check_unbiased, ctx, gen_jit, prog, vals, args, subset, cons_np, d0)
             if hasattr(r, "brief"):
                 ctx.violation(gfi.raise_key("generate-law", r), {**d0, **r.brief()})
